@@ -136,6 +136,16 @@ class RouteSession(impl.Session):
         return {"db": {"t": {"a": "INT"}, "u": {"a": "INT"}}, "shop": {"orders": {"a": "INT"}}}
 
 
+class PickySession(RouteSession):
+    """an application whose use() hook refuses databases it does not know (the library calls it for USE and COM_INIT_DB)"""
+
+    async def use(self, database):
+        if database in ("nosuch", "forbidden"):
+            from mysql_mimic.errors import MysqlError
+            raise MysqlError(f"Unknown database '{database}'", 1049)
+        await super().use(database)
+
+
 def run_history(rng, nops, via_prepared):
     """one connection: database selections and multi-statement texts; returns (problem, model cases)"""
     env = impl.Env(own_sleep=False)
@@ -144,8 +154,11 @@ def run_history(rng, nops, via_prepared):
         RouteSession.LOG = log
         made = []
 
+        picky = rng.random() < 0.5
+        PickySession.LOG = log
+
         def factory():
-            made.append(RouteSession())
+            made.append(PickySession() if picky else RouteSession())
             return made[-1]
 
         srv = impl.make_server(env, factory)
@@ -160,6 +173,27 @@ def run_history(rng, nops, via_prepared):
         cases = []
         for _ in range(nops):
             r = rng.random()
+            if picky and rng.random() < 0.15:
+                # a database selection the application refuses - alone, or after one it accepts in the same text: answered
+                # with ERR, and the default database is the last one that WAS selected
+                bad = rng.choice(["nosuch", "forbidden"])
+                how = rng.choice(["use", "init_db", "use-after-use"])
+                del log[:]
+                if how == "init_db":
+                    c.feed(cl.frame(bytes([cl.COM_INIT_DB]) + bad.encode(), 0))
+                elif how == "use":
+                    c.feed(cl.frame(bytes([cl.COM_QUERY]) + pk.encode_com_query([], f"USE {bad}".encode()), 0))
+                else:
+                    good = rng.choice(["db", "shop", "information_schema"])
+                    c.feed(cl.frame(bytes([cl.COM_QUERY]) + pk.encode_com_query([], f"USE {good}; USE {bad}; SELECT a FROM t".encode()), 0))
+                    current = good
+                rep = cl.split_raw(c.take())
+                if not rep or rep[-1][1][:1] != b"\xff" or log:
+                    return dict(problem="a database selection the application refuses was not answered with ERR alone", how=how, database=bad,
+                                reply=[p[:1].hex() for _, p in rep], application_calls=len(log)), cases
+                if (sess.database or None) != current:
+                    return dict(problem="default database after a selection the application REFUSED", how=how, refused=bad, expected=current, got=sess.database), cases
+                continue
             if r < 0.12:
                 d = rng.choice(["db", "shop", "mysql", "information_schema"])
                 c.feed(cl.frame(bytes([cl.COM_INIT_DB]) + d.encode(), 0)); c.take()
